@@ -353,6 +353,58 @@ theorem step_inv (P : Params) (s s' : State) (hP : P.ignoreDelay + P.lag < P.del
   | readFault =>
     simp only [step, Option.some.injEq] at h
     subst h; exact hi
+  | syncLoad g =>
+    -- the loaded set after the first half of a sync is the whole view, exactly as after an atomic sync;
+    -- what was loaded before and left the view is only kept on top of it (`stale`)
+    simp only [step] at h
+    split at h
+    · simp only [Option.some.injEq] at h
+      subst h
+      refine ⟨hi.ids_lt, hi.ids_nodup, hi.src_sorted, hi.witness, ?_, ?_, ?_⟩
+      · intro g' hg'
+        rcases List.mem_or_eq_of_mem_set hg' with hold | rfl
+        · exact hi.gw_time g' hold
+        · simp
+      · intro g' hg' j hj
+        rcases List.mem_or_eq_of_mem_set hg' with hold | rfl
+        · exact hi.gw_loaded g' hold j hj
+        · simp only [List.mem_map] at hj
+          obtain ⟨k, hk, rfl⟩ := hj
+          obtain ⟨⟨hkb, hkm⟩, _⟩ := (mem_filterChain _ _ _ _ _).mp hk
+          refine ⟨k, hkb, rfl, ?_⟩
+          intro t ht
+          simp only [markOk, ht, Bool.not_eq_true', decide_eq_false_iff_not] at hkm
+          simp only
+          omega
+      · intro g' hg' x hx
+        rcases List.mem_or_eq_of_mem_set hg' with hold | rfl
+        · exact hi.gw_known g' hold x hx
+        · obtain ⟨k, hk, hxk⟩ := chain_complete P s hi P.ignoreDelay x hx
+          obtain ⟨⟨hkb, _⟩, _⟩ := (mem_filterChain _ _ _ _ _).mp hk
+          exact ⟨k, hkb, List.mem_map.mpr ⟨k, hk, rfl⟩, hxk⟩
+    · simp at h
+  | syncDrop g =>
+    -- dropping the stale blocks changes nothing the invariant speaks about
+    simp only [step] at h
+    split at h
+    · rename_i gw hgw
+      simp only [Option.some.injEq] at h
+      subst h
+      have hgm : gw ∈ s.gws := List.mem_of_getElem? hgw
+      refine ⟨hi.ids_lt, hi.ids_nodup, hi.src_sorted, hi.witness, ?_, ?_, ?_⟩
+      · intro g' hg'
+        rcases List.mem_or_eq_of_mem_set hg' with hold | rfl
+        · exact hi.gw_time g' hold
+        · exact hi.gw_time gw hgm
+      · intro g' hg' j hj
+        rcases List.mem_or_eq_of_mem_set hg' with hold | rfl
+        · exact hi.gw_loaded g' hold j hj
+        · exact hi.gw_loaded gw hgm j hj
+      · intro g' hg' x hx
+        rcases List.mem_or_eq_of_mem_set hg' with hold | rfl
+        · exact hi.gw_known g' hold x hx
+        · exact hi.gw_known gw hgm x hx
+    · simp at h
 
 theorem init_inv (P : Params) (k : Nat) : Inv P (init k) := by
   refine ⟨by simp [init], by simp [init], by simp [init], by simp [init], ?_, ?_, ?_⟩
@@ -406,6 +458,14 @@ theorem step_gws_nil (P : Params) (s s' : State) (a : Action) (hn : s.gws = []) 
     · simp at h
   case failedUpload => simp only [Option.some.injEq] at h; subst h; exact hn
   case readFault => simp only [Option.some.injEq] at h; subst h; exact hn
+  case syncLoad g =>
+    split at h
+    · rename_i gw hgw; simp [hn] at hgw
+    · simp at h
+  case syncDrop g =>
+    split at h
+    · rename_i gw hgw; simp [hn] at hgw
+    · simp at h
 
 theorem run_inv (P : Params) (hT : P.levelTie = true) :
     ∀ (acts : List Action) (s s' : State), (P.ignoreDelay + P.lag < P.deleteDelay ∨ s.gws = []) →
@@ -440,8 +500,8 @@ theorem C34 : C34_full true := by
   intro dd ig lag k acts s hP hrun g hg x hx
   have hinv := run_inv _ rfl acts (init k) s (Or.inl hP) (init_inv _ k) hrun
   obtain ⟨b, hb, hl, hxb⟩ := hinv.gw_known g hg x hx
-  simp only [serves, List.any_eq_true, Bool.and_eq_true, List.contains_iff_mem]
-  exact ⟨b, hb, by simpa using hl, by simpa using hxb⟩
+  simp only [serves, List.any_eq_true, Bool.and_eq_true, Bool.or_eq_true, List.contains_iff_mem]
+  exact ⟨b, hb, Or.inl (by simpa using hl), by simpa using hxb⟩
 
 /-- a sync makes the gateway know exactly the samples of the bucket — the claim above is not vacuous -/
 theorem C34_sync_knows_all (P : Params) (s s' : State) (g : Nat) (h : step P s (.sync g) = some s') :
@@ -551,6 +611,71 @@ theorem markSource_needs_result (P : Params) (s s1 : State) (b : Nat)
     omega
   simp only [step, hnone]
   split <;> simp_all
+
+/-! ### a sync of the real store gateway is two half-steps: load the new blocks, then drop the outdated ones -/
+
+/-- `C34` quantifies over all action sequences, hence also over those in which a gateway's sync is
+    split (`syncLoad g`, any other actions — compactor steps, ticks, syncs of other gateways — then
+    `syncDrop g`).  Spelled out for the state between the two half-steps: right after `syncLoad`
+    the gateway's loaded set is the whole current view (the cover of every sample of the bucket),
+    whatever was loaded before stays on top of it until `syncDrop`. -/
+theorem C34_between_half_steps (dd ig lag k : Nat) (acts : List Action) (s s1 : State) (g : Nat)
+    (hP : ig + lag < dd)
+    (hrun : run { deleteDelay := dd, divisor := 2, ignoreDelay := ig, lag := lag, levelTie := true } (init k) acts = some s)
+    (hload : step { deleteDelay := dd, divisor := 2, ignoreDelay := ig, lag := lag, levelTie := true } s (.syncLoad g) = some s1) :
+    ∀ gw ∈ s1.gws, ∀ x ∈ gw.known, serves s1 gw x = true := by
+  have hrun1 : run { deleteDelay := dd, divisor := 2, ignoreDelay := ig, lag := lag, levelTie := true } (init k)
+      (acts ++ [.syncLoad g]) = some s1 := by
+    have append : ∀ (as : List Action) (t : State),
+        run { deleteDelay := dd, divisor := 2, ignoreDelay := ig, lag := lag, levelTie := true } t as = some s →
+        run { deleteDelay := dd, divisor := 2, ignoreDelay := ig, lag := lag, levelTie := true } t (as ++ [.syncLoad g]) = some s1 := by
+      intro as
+      induction as with
+      | nil => intro t ht; simp [run] at ht; subst ht; simp [run, hload]
+      | cons a as ih =>
+        intro t ht
+        simp only [run, List.cons_append] at ht ⊢
+        split at ht
+        · rename_i t1 ht1
+          first | (rw [ht1]; exact ih t1 ht) | exact ih t1 ht
+        · simp at ht
+    exact append acts (init k) hrun
+  exact C34 dd ig lag k _ s1 hP hrun1
+
+def midSyncWitness : State :=
+  { now := 0,
+    blocks := [ { id := 1, level := 1, sources := [1], mark := some 0 },
+                { id := 2, level := 1, sources := [2], mark := some 0 },
+                { id := 3, level := 2, sources := [1, 2], mark := none } ],
+    gws := [ { loaded := [1, 2], lastSync := 0, known := [1, 2] } ], nextId := 4 }
+
+/-- the state is reachable: sources shipped, gateway synced, compaction uploaded, sources marked -/
+example : run { deleteDelay := 100, divisor := 2, ignoreDelay := 40, lag := 50, levelTie := true } (init 1)
+    [.ship, .ship, .sync 0, .compact [1, 2], .markSource 1 3, .markSource 2 3] = some midSyncWitness := by decide
+
+/-- The other order — drop what left the view first, load the new blocks afterwards — violates the
+    property in the middle of the sync: sources 1 and 2 are hidden by the duplicate filter in favour
+    of block 3, the gateway unloads them, block 3 is not loaded yet. -/
+theorem C34_drop_first_false :
+    ∃ gw ∈ (dropOutdatedFirst { deleteDelay := 100, divisor := 2, ignoreDelay := 40, lag := 50, levelTie := true } midSyncWitness 0).gws,
+      ∃ x ∈ gw.known, serves (dropOutdatedFirst { deleteDelay := 100, divisor := 2, ignoreDelay := 40, lag := 50, levelTie := true } midSyncWitness 0) gw x = false :=
+  ⟨{ loaded := [], lastSync := 0, known := [1, 2] }, by decide, 1, by simp, by decide⟩
+
+/-- Known finding (`gateway-lost-sample-after-failed-load`): the order is right in the code, but
+    when the replacement block cannot be loaded in a sync (index-header download fails) the
+    outdated blocks are dropped all the same, and until the next sync nothing serves the source
+    samples.  `syncWithFailedLoads` is that behaviour; it is not a step of the model. -/
+theorem C34_failed_load_false :
+    ∃ gw ∈ (syncWithFailedLoads { deleteDelay := 100, divisor := 2, ignoreDelay := 40, lag := 50, levelTie := true } midSyncWitness 0 [3]).gws,
+      ∃ x ∈ gw.known, serves (syncWithFailedLoads { deleteDelay := 100, divisor := 2, ignoreDelay := 40, lag := 50, levelTie := true } midSyncWitness 0 [3]) gw x = false :=
+  ⟨{ loaded := [], lastSync := 0, known := [1, 2] }, by decide, 1, by decide, by decide⟩
+
+/-- … and when every block of the view loads, it is the atomic sync -/
+example : (syncWithFailedLoads { deleteDelay := 100, divisor := 2, ignoreDelay := 40, lag := 50, levelTie := true } midSyncWitness 0 []).gws
+    = [ { loaded := [3], lastSync := 0, known := [1, 2] } ] := by decide
+
+/-- `BucketStore.SyncBlocks` loads (addBlock) before it drops (removeBlock) -/
+theorem C34_fact_sync_blocks_order : Thanos.Facts.storeSyncBlocksOrder = ["addBlock", "removeBlock"] := by decide
 
 /-! ## Regenerated facts -/
 
